@@ -2010,6 +2010,28 @@ fn main() {
         }
     }
     let n_corpus = cases.len();
+    // every dedicated family first, a fixed number of each: the wall-clock cap below may cut the random part short
+    // (machine under load), it must never cut a family that exists because of a finding or a seeded defect
+    let families: [(&str, fn(&mut Rng) -> Scenario); 6] = [
+        ("finished-target", gen_finished_target_scenario),
+        ("co-awaiter", gen_co_awaiter_scenario),
+        ("update", gen_update_scenario),
+        ("takeover", gen_takeover_scenario),
+        ("await-before-filter", gen_await_before_filter_scenario),
+        ("boundary-timeout", gen_boundary_timeout_scenario),
+    ];
+    let n_fam = opts.tier.pick(5u64, 60);
+    for (fi, (fname, g)) in families.iter().enumerate() {
+        for i in 0..n_fam {
+            let mut r = Rng::for_case(opts.seed ^ 0xC05F00 ^ ((fi as u64) << 32), i);
+            let sc = g(&mut r);
+            for k in 0..2u64 {
+                let workers = if *fname == "finished-target" && k == 0 { 3 } else { 1 + r.usize(3) };
+                let quantum = *r.pick(&[Some(1usize), Some(2), Some(7), Some(40), None]);
+                cases.push((format!("family:{fname}:{i}:{k}"), Case { scenario: sc.clone(), workers, quantum, sched_seed: r.next() }));
+            }
+        }
+    }
     let n_scen = opts.tier.pick(200u64, 2600);
     let n_sched = opts.tier.pick(4u64, 10);
     for i in 0..n_scen {
